@@ -8,6 +8,7 @@ import time
 from collections import OrderedDict
 from collections.abc import Mapping
 
+from .CommonMixin import formatNumber
 from .ExcludedGcode import EXCLUDE_EXCEPT_FIRST, EXCLUDE_EXCEPT_LAST, EXCLUDE_MERGE
 from .Position import Position
 from .RetractionState import RetractionState
@@ -824,7 +825,7 @@ class ExcludeRegionState(object):  # pylint: disable=too-many-instance-attribute
 
         returnCommands.append(
             # Set logical extruder position
-            "G92 E{e}".format(e=self.position.E_AXIS.nativeToLogical())
+            "G92 E{e}".format(e=formatNumber(self.position.E_AXIS.nativeToLogical()))
         )
 
         # Compare the native Z positions (the logical values may be expressed in different units
@@ -834,8 +835,8 @@ class ExcludeRegionState(object):  # pylint: disable=too-many-instance-attribute
         newZ = position.Z_AXIS.current
         oldZ = lastPosition.Z_AXIS.current
         moveZcmd = "G0 F{f} Z{z}".format(
-            f=self.feedRate / self.feedRateUnitMultiplier,
-            z=self._exitCoordinate(position.Z_AXIS, lastPosition.Z_AXIS)
+            f=formatNumber(self.feedRate / self.feedRateUnitMultiplier),
+            z=formatNumber(self._exitCoordinate(position.Z_AXIS, lastPosition.Z_AXIS))
         )
 
         if (newZ > oldZ):
@@ -847,9 +848,9 @@ class ExcludeRegionState(object):  # pylint: disable=too-many-instance-attribute
             # Move X/Y axes to new position
             # Use G0 ("fast" linear move) as this is a non-extruding move
             "G0 F{f} X{x} Y{y}".format(
-                f=self.feedRate / self.feedRateUnitMultiplier,
-                x=self._exitCoordinate(position.X_AXIS, lastPosition.X_AXIS),
-                y=self._exitCoordinate(position.Y_AXIS, lastPosition.Y_AXIS)
+                f=formatNumber(self.feedRate / self.feedRateUnitMultiplier),
+                x=formatNumber(self._exitCoordinate(position.X_AXIS, lastPosition.X_AXIS)),
+                y=formatNumber(self._exitCoordinate(position.Y_AXIS, lastPosition.Y_AXIS))
             )
         )
 
